@@ -109,6 +109,75 @@ Definition opt_items (o : option (list (K * nat))) : list (K * nat) := match o w
 Definition src_keys (x : upd_src) : list K := match x with SrcIterable ks => ks | _ => [] end.
 """
 
+# ---- value-returning methods -------------------------------------------------------------------------
+ATTRS = {"total": ("tc_total", "set_total", "int"), "_count_map": ("tc_map", "set_map", "dict"),
+         "_cur_bucket": ("tc_bucket", "set_bucket", "int"), "_thresh_count": ("tc_w", "set_w", "int")}
+
+
+def iter_values(T, e, scope):
+    # self._count_map.values()
+    if isinstance(e, ast.Call) and isinstance(e.func, ast.Attribute) and e.func.attr == "values" and not e.args and not e.keywords and \
+            isinstance(e.func.value, ast.Attribute) and _is(e.func.value.value, ast.Name, id="self") and e.func.value.attr == "_count_map":
+        return "(d_values (tc_map self))"
+    return None
+
+
+CFG_COMMON = {"name": "src_get_common_count", "params": [("self", "tc")], "ret": "N", "num": "N", "attrs": ATTRS,
+              "kinds": {"count": "int", "_": "int"}, "calls": {"sum": ("sumN", "int")}, "iterables": [iter_values]}
+CFG_UNCOMMON = {"name": "src_get_uncommon_count", "params": [("self", "tc")], "ret": "N", "num": "N", "attrs": ATTRS,
+                "self_funcs": {"get_common_count": "src_get_common_count"}, "self_func_kinds": {"get_common_count": "int"}}
+CFG_LEN = {"name": "src_len", "params": [("self", "tc")], "ret": "N", "num": "N", "attrs": ATTRS, "calls": {"len": ("nlen", "int")}}
+
+
+def cond_mc(T, e, scope):
+    if isinstance(e, ast.Compare) and len(e.ops) == 1 and _is(e.left, ast.Name, id="n") and _is(e.comparators[0], ast.Constant, value=None):
+        if isinstance(e.ops[0], ast.IsNot):
+            return "(opt_is_some n)"
+        if isinstance(e.ops[0], ast.Is):
+            return "(negb (opt_is_some n))"
+    return None
+
+
+def expr_mc(T, e, scope):
+    if _is(e, ast.Name, id="n"):
+        return "(opt_getZ n)"              # only evaluated where Python has already established `n is not None`
+    # sorted(self.iteritems(), key=lambda x: x[1], reverse=True)
+    if isinstance(e, ast.Call) and _is(e.func, ast.Name, id="sorted"):
+        try:
+            assert len(e.args) == 1 and len(e.keywords) == 2
+            a = e.args[0]
+            assert isinstance(a, ast.Call) and isinstance(a.func, ast.Attribute) and _is(a.func.value, ast.Name, id="self")
+            assert a.func.attr in ("iteritems", "items") and not a.args and not a.keywords
+            kw = {k.arg: k.value for k in e.keywords}
+            lam = kw["key"]
+            assert isinstance(lam, ast.Lambda) and len(lam.args.args) == 1 and isinstance(lam.body, ast.Subscript)
+            assert _is(lam.body.value, ast.Name, id=lam.args.args[0].arg) and _is(lam.body.slice, ast.Constant, value=1)
+            assert _is(kw["reverse"], ast.Constant, value=True)
+        except (AssertionError, KeyError):
+            raise py2coq.Unsupported("sorted(...) call of an unknown shape")
+        return "(sort_desc (tc_items self))"
+    # ret[:n]
+    if isinstance(e, ast.Subscript) and _is(e.value, ast.Name, id="ret") and isinstance(e.slice, ast.Slice) and \
+            e.slice.lower is None and e.slice.step is None and _is(e.slice.upper, ast.Name, id="n"):
+        return "(firstn (Z.to_nat (opt_getZ n)) ret)"
+    return None
+
+
+def kind_mc(T, e):
+    if _is(e, ast.Name, id="n"):
+        return "int"
+    return None
+
+
+CFG_MC = {"name": "src_most_common", "params": [("self", "tc"), ("n", "option Z")], "ret": "list (K * N)", "num": "Z",
+          "defaults": {"n": "None"}, "attrs": ATTRS, "kinds": {"ret": "list"}, "calls": {"len": ("zlen", "int")},
+          "conds": [cond_mc], "exprs": [expr_mc], "kind_of": [kind_mc], "rv_default": "[]"}
+
+HEADER_VALUES = """
+(* ---- value-returning methods: get_common_count, get_uncommon_count, __len__, most_common(n) ---------- *)
+Definition opt_getZ (o : option Z) : Z := match o with Some z => z | None => 0%Z end.
+"""
+
 HEADER = """(* GENERATED on every run by harness/translators/c20_src.py from %s
    (ThresholdCounter.add); do not edit.  Integers are N: the only subtraction is _cur_bucket - 1 and
    _cur_bucket >= 1 is an invariant (Proofs.C20_Proofs.inv_bucket). *)
@@ -123,4 +192,8 @@ Definition set_map (s : tc) (m : pydict (N * N)) : tc := mkTC (tc_total s) (tc_b
 def generate(repo):
     path = os.path.join(repo, "boltons", "cacheutils.py")
     return {"C20_Src": HEADER % path + py2coq.translate(path, "ThresholdCounter.add", CFG) + HEADER_UPDATE +
-            py2coq.translate(path, "ThresholdCounter.update", CFG_UPDATE)}
+            py2coq.translate(path, "ThresholdCounter.update", CFG_UPDATE) + HEADER_VALUES +
+            py2coq.translate(path, "ThresholdCounter.get_common_count", CFG_COMMON) +
+            py2coq.translate(path, "ThresholdCounter.get_uncommon_count", CFG_UNCOMMON) +
+            py2coq.translate(path, "ThresholdCounter.__len__", CFG_LEN) +
+            py2coq.translate(path, "ThresholdCounter.most_common", CFG_MC)}
